@@ -46,8 +46,15 @@ Definition chk_quant : P (list Z) :=
   else if ty =? 1 then
     let mq := map canon16 (q16 v) in
     let md := dq16 (q16 v) in
+    (* spec: a component in the float16 normal range (2^-14 <= |x| <= 65504) is reconstructed within
+       half-precision rounding, |x - deq(q x)| <= 2^-11 |x| (both sides are exact in float32: the
+       difference of two neighbours by Sterbenz, the bound by scaling with a power of two) *)
+    let normal16 x := F32.leb 947912704 (f32_abs x) && F32.leb (f32_abs x) 1199562752 in
+    let errs_ok := forallb (fun p => negb (normal16 (fst p)) ||
+                                     F32.leb (f32_abs (F32.sub (fst p) (snd p))) (F32.mul (f32_abs (fst p)) 973078528))
+                           (combine v dq) in
     ret (verdict (negb err && list_eqb mq (map canon16 q) && veceq md dq && negb changed)
-                 (negb err && (length q =? length v)%nat && (length dq =? length v)%nat && negb changed) mq)
+                 (negb err && (length q =? length v)%nat && (length dq =? length v)%nat && negb changed && errs_ok) mq)
   else
     let am := q8_train train in
     match q8 am v with
